@@ -1,6 +1,6 @@
 //! The listed instantiations (DESIGN.md §4) as `Case` impls.
 use crate::rt::{Borrows, Case};
-use crate::sym::{self, any, assume, len_upto, string_upto, vec_upto, Sym};
+use crate::sym::{self, any, assume, len_upto, string_upto, string_w, vec_n, vec_upto, Sym};
 use crate::universe::*;
 use core::marker::PhantomData;
 use core::num::*;
@@ -27,13 +27,14 @@ pub fn eqstr(a: &str, b: &str) -> bool {
 }
 
 macro_rules! case {
-    ($name:ident : $t:ty, make = $make:expr, same = |$a:ident, $b:ident| $same:expr,
+    ($name:ident : $t:ty, $(shapes = $ns:literal,)? make = |$sh:ident| $make:expr, same = |$a:ident, $b:ident| $same:expr,
      eps = |$x:ident, $e:ident| $eps:expr
      $(, borrows = |$be:ident, $bo:ident| $bor:block, n = |$nx:ident| $nb:expr)?) => {
         pub struct $name;
         impl Case for $name {
             type T = $t;
-            fn make() -> $t { $make }
+            $(const SHAPES: usize = $ns;)?
+            fn make($sh: usize) -> $t { $make }
             fn same($a: &$t, $b: &$t) -> bool { $same }
             fn same_eps<'a>($x: &$t, $e: &DeserType<'a, $t>) -> bool { $eps }
             $(fn borrows<'a>($be: &DeserType<'a, $t>, $bo: &mut Borrows) $bor
@@ -45,7 +46,7 @@ macro_rules! case {
 /// Types whose ε-copy type is themselves and that are `PartialEq`.
 macro_rules! plain {
     ($($name:ident : $t:ty),* $(,)?) => {$(
-        case!($name: $t, make = any(), same = |a, b| a == b, eps = |x, e| x == e);
+        case!($name: $t, make = |_s| any(), same = |a, b| a == b, eps = |x, e| x == e);
     )*};
 }
 
@@ -54,17 +55,17 @@ plain!(U8: u8, U16: u16, U32: u32, U64: u64, U128: u128, Usize: usize,
        Bool: bool, Char: char, Unit: (),
        NzU8: NonZeroU8, NzU16: NonZeroU16, NzU32: NonZeroU32, NzU64: NonZeroU64, NzU128: NonZeroU128, NzUsize: NonZeroUsize,
        NzI8: NonZeroI8, NzI16: NonZeroI16, NzI32: NonZeroI32, NzI64: NonZeroI64, NzI128: NonZeroI128, NzIsize: NonZeroIsize,
-       OptU32: Option<u32>, OptUnit: Option<()>, OptOptU8: Option<Option<u8>>);
+       OptU8: Option<u8>, OptU32: Option<u32>, OptUnit: Option<()>, OptOptU8: Option<Option<u8>>);
 
-case!(F32: f32, make = any(), same = |a, b| a.to_bits() == b.to_bits(), eps = |x, e| x.to_bits() == e.to_bits());
-case!(F64: f64, make = any(), same = |a, b| a.to_bits() == b.to_bits(), eps = |x, e| x.to_bits() == e.to_bits());
-case!(Phantom: PhantomData<u32>, make = PhantomData, same = |a, b| a == b, eps = |x, e| x == e);
+case!(F32: f32, make = |_s| any(), same = |a, b| a.to_bits() == b.to_bits(), eps = |x, e| x.to_bits() == e.to_bits());
+case!(F64: f64, make = |_s| any(), same = |a, b| a.to_bits() == b.to_bits(), eps = |x, e| x.to_bits() == e.to_bits());
+case!(Phantom: PhantomData<u32>, make = |_s| PhantomData, same = |a, b| a == b, eps = |x, e| x == e);
 
 // ---- sequences of zero-copy elements: borrowed slices ------------------------
 
 macro_rules! zvec {
     ($($name:ident : $el:ty, $max:literal),* $(,)?) => {$(
-        case!($name: Vec<$el>, make = vec_upto::<$el, $max>(), same = |a, b| eqs(a, b),
+        case!($name: Vec<$el>, make = |_s| vec_upto::<$el, $max>(), same = |a, b| eqs(a, b),
               eps = |x, e| eqs(x, e),
               borrows = |e, out| { out.slice(*e, 0); }, n = |_x| 1);
     )*};
@@ -107,20 +108,28 @@ impl<B: Sym, C: Sym> Sym for ControlFlow<B, C> {
     fn sym() -> Self { if any::<bool>() { ControlFlow::Break(any()) } else { ControlFlow::Continue(any()) } }
 }
 
-case!(BoxU32: Box<[u32]>, make = vec_upto::<u32, 3>().into_boxed_slice(), same = |a, b| eqs(a, b),
+case!(BoxU32: Box<[u32]>, make = |_s| vec_upto::<u32, 3>().into_boxed_slice(), same = |a, b| eqs(a, b),
       eps = |x, e| eqs(x, e), borrows = |e, out| { out.slice(*e, 0); }, n = |_x| 1);
-case!(Str: String, make = string_upto::<2>(), same = |a, b| eqstr(a, b),
+/// UTF-8 width classes of the (<= 2) chars of a string, per shape.
+pub const STR_SHAPES: [(usize, usize); 8] = [(0, 0), (1, 0), (2, 0), (3, 0), (4, 0), (1, 4), (3, 2), (4, 1)];
+fn str_shape(s: usize) -> String { string_w(STR_SHAPES[s].0, STR_SHAPES[s].1) }
+/// Shorter list for strings nested in other types.
+pub const STR3: [(usize, usize); 3] = [(0, 0), (1, 0), (3, 0)];
+fn str3(s: usize) -> String { string_w(STR3[s].0, STR3[s].1) }
+case!(Str: String, shapes = 8, make = |s| str_shape(s), same = |a, b| eqstr(a, b),
       eps = |x, e| eqstr(x, e), borrows = |e, out| { out.str(*e, 0); }, n = |_x| 1);
-case!(BoxStr: Box<str>, make = string_upto::<2>().into_boxed_str(), same = |a, b| eqstr(a, b),
+case!(BoxStr: Box<str>, shapes = 8, make = |s| str_shape(s).into_boxed_str(), same = |a, b| eqstr(a, b),
       eps = |x, e| eqstr(x, e), borrows = |e, out| { out.str(*e, 0); }, n = |_x| 1);
 
 // ---- deep sequences -----------------------------------------------------------
 
-fn vec_vec_u16() -> Vec<Vec<u16>> {
-    let n = len_upto(2);
+/// (outer length, inner lengths) per shape; element values symbolic.
+pub const VV_SHAPES: [(usize, usize, usize); 6] = [(0, 0, 0), (1, 0, 0), (1, 1, 0), (1, 2, 0), (2, 0, 1), (2, 1, 2)];
+fn vec_vec_u16(s: usize) -> Vec<Vec<u16>> {
+    let (o, a, b) = VV_SHAPES[s];
     let mut v = Vec::with_capacity(2);
-    let mut i = 0;
-    while i < n { v.push(vec_upto::<u16, 2>()); i += 1; }
+    if o >= 1 { v.push(vec_n::<u16>(a)); }
+    if o >= 2 { v.push(vec_n::<u16>(b)); }
     v
 }
 fn eq_vv(x: &Vec<Vec<u16>>, e: &Vec<&[u16]>) -> bool {
@@ -141,14 +150,16 @@ fn eq_vs_full(a: &[String], b: &[String]) -> bool {
     while i < a.len() { if !eqstr(&a[i], &b[i]) { return false; } i += 1; }
     true
 }
-case!(VecVecU16: Vec<Vec<u16>>, make = vec_vec_u16(), same = |a, b| eq_vv_full(a, b), eps = |x, e| eq_vv(x, e),
+case!(VecVecU16: Vec<Vec<u16>>, shapes = 6, make = |s| vec_vec_u16(s), same = |a, b| eq_vv_full(a, b), eps = |x, e| eq_vv(x, e),
       borrows = |e, out| { let mut i = 0; while i < e.len() { out.slice(e[i], i); i += 1; } }, n = |x| x.len());
 
-fn vec_string() -> Vec<String> {
-    let n = len_upto(2);
+/// (length, width of the char of string 0, of string 1; 0 = empty string) per shape.
+pub const VS_SHAPES: [(usize, usize, usize); 6] = [(0, 0, 0), (1, 0, 0), (1, 1, 0), (1, 3, 0), (2, 0, 2), (2, 4, 1)];
+fn vec_string(s: usize) -> Vec<String> {
+    let (o, a, b) = VS_SHAPES[s];
     let mut v = Vec::with_capacity(2);
-    let mut i = 0;
-    while i < n { v.push(string_upto::<1>()); i += 1; }
+    if o >= 1 { v.push(string_w(a, 0)); }
+    if o >= 2 { v.push(string_w(b, 0)); }
     v
 }
 fn eq_vs(x: &[String], e: &[&str]) -> bool {
@@ -157,18 +168,18 @@ fn eq_vs(x: &[String], e: &[&str]) -> bool {
     while i < x.len() { if !eqstr(&x[i], e[i]) { return false; } i += 1; }
     true
 }
-case!(VecString: Vec<String>, make = vec_string(), same = |a, b| eq_vs_full(a, b), eps = |x, e| eq_vs(x, e),
+case!(VecString: Vec<String>, shapes = 6, make = |s| vec_string(s), same = |a, b| eq_vs_full(a, b), eps = |x, e| eq_vs(x, e),
       borrows = |e, out| { let mut i = 0; while i < e.len() { out.str(e[i], i); i += 1; } }, n = |x| x.len());
-case!(BoxString: Box<[String]>, make = vec_string().into_boxed_slice(), same = |a, b| eq_vs_full(a, b), eps = |x, e| eq_vs(x, e),
+case!(BoxString: Box<[String]>, shapes = 6, make = |s| vec_string(s).into_boxed_slice(), same = |a, b| eq_vs_full(a, b), eps = |x, e| eq_vs(x, e),
       borrows = |e, out| { let mut i = 0; while i < e.len() { out.str(e[i], i); i += 1; } }, n = |x| x.len());
-case!(VecOptU8: Vec<Option<u8>>, make = vec_upto::<Option<u8>, 2>(), same = |a, b| eqs(a, b), eps = |x, e| eqs(x, e));
+case!(VecOptU8: Vec<Option<u8>>, make = |_s| vec_upto::<Option<u8>, 2>(), same = |a, b| eqs(a, b), eps = |x, e| eqs(x, e));
 
 fn opt_vec_u16() -> Option<Vec<u16>> { if any::<bool>() { Some(vec_upto::<u16, 2>()) } else { None } }
-case!(OptVecU16: Option<Vec<u16>>, make = opt_vec_u16(), same = |a, b| match (a, b) { (None, None) => true, (Some(a), Some(b)) => eqs(a, b), _ => false },
+case!(OptVecU16: Option<Vec<u16>>, make = |_s| opt_vec_u16(), same = |a, b| match (a, b) { (None, None) => true, (Some(a), Some(b)) => eqs(a, b), _ => false },
       eps = |x, e| match (x, e) { (None, None) => true, (Some(a), Some(b)) => eqs(a, b), _ => false },
       borrows = |e, out| { if let Some(s) = e { out.slice(*s, 0); } }, n = |x| if x.is_some() { 1 } else { 0 });
 fn opt_vec_u64() -> Option<Vec<u64>> { if any::<bool>() { Some(vec_upto::<u64, 1>()) } else { None } }
-case!(OptVecU64: Option<Vec<u64>>, make = opt_vec_u64(), same = |a, b| match (a, b) { (None, None) => true, (Some(a), Some(b)) => eqs(a, b), _ => false },
+case!(OptVecU64: Option<Vec<u64>>, make = |_s| opt_vec_u64(), same = |a, b| match (a, b) { (None, None) => true, (Some(a), Some(b)) => eqs(a, b), _ => false },
       eps = |x, e| match (x, e) { (None, None) => true, (Some(a), Some(b)) => eqs(a, b), _ => false },
       borrows = |e, out| { if let Some(s) = e { out.slice(*s, 0); } }, n = |x| if x.is_some() { 1 } else { 0 });
 
@@ -176,150 +187,158 @@ case!(OptVecU64: Option<Vec<u64>>, make = opt_vec_u64(), same = |a, b| match (a,
 
 macro_rules! zarr {
     ($($name:ident : $el:ty, $n:literal),* $(,)?) => {$(
-        case!($name: [$el; $n], make = any(), same = |a, b| a == b, eps = |x, e| x == *e,
+        case!($name: [$el; $n], make = |_s| any(), same = |a, b| a == b, eps = |x, e| x == *e,
               borrows = |e, out| { out.re(*e, 0); }, n = |_x| 1);
     )*};
 }
 zarr!(ArrU32x0: u32, 0, ArrU32x1: u32, 1, ArrU32x3: u32, 3, ArrUnitx2: (), 2, ArrZeroSx2: ZeroS, 2);
-case!(ArrArrU8: [[u8; 2]; 2], make = any(), same = |a, b| a == b, eps = |x, e| x == *e,
+case!(ArrArrU8: [[u8; 2]; 2], make = |_s| any(), same = |a, b| a == b, eps = |x, e| x == *e,
       borrows = |e, out| { out.re(*e, 0); }, n = |_x| 1);
-case!(ArrStringx0: [String; 0], make = [], same = |a, b| a == b, eps = |x, e| e.len() == 0);
-fn arr_string2() -> [String; 2] { [string_upto::<1>(), string_upto::<1>()] }
-case!(ArrStringx2: [String; 2], make = arr_string2(), same = |a, b| a == b,
-      eps = |x, e| x[0].as_str() == e[0] && x[1].as_str() == e[1],
+case!(ArrStringx0: [String; 0], make = |_s| [], same = |a, b| a == b, eps = |x, e| e.len() == 0);
+pub const AS_SHAPES: [(usize, usize); 4] = [(0, 0), (1, 0), (2, 3), (4, 1)];
+fn arr_string2(s: usize) -> [String; 2] { [string_w(AS_SHAPES[s].0, 0), string_w(AS_SHAPES[s].1, 0)] }
+case!(ArrStringx2: [String; 2], shapes = 4, make = |s| arr_string2(s), same = |a, b| eqstr(&a[0], &b[0]) && eqstr(&a[1], &b[1]),
+      eps = |x, e| eqstr(&x[0], e[0]) && eqstr(&x[1], e[1]),
       borrows = |e, out| { out.str(e[0], 0); out.str(e[1], 1); }, n = |_x| 2);
 
 // ---- tuples (zero-copy, homogeneous) -----------------------------------------------
 
-case!(Tup1: (u32,), make = any(), same = |a, b| a == b, eps = |x, e| x == *e, borrows = |e, out| { out.re(*e, 0); }, n = |_x| 1);
-case!(Tup2: (u16, u16), make = any(), same = |a, b| a == b, eps = |x, e| x == *e, borrows = |e, out| { out.re(*e, 0); }, n = |_x| 1);
-case!(Tup3: (u64, u64, u64), make = any(), same = |a, b| a == b, eps = |x, e| x == *e, borrows = |e, out| { out.re(*e, 0); }, n = |_x| 1);
+case!(Tup1: (u32,), make = |_s| any(), same = |a, b| a == b, eps = |x, e| x == *e, borrows = |e, out| { out.re(*e, 0); }, n = |_x| 1);
+case!(Tup2: (u16, u16), make = |_s| any(), same = |a, b| a == b, eps = |x, e| x == *e, borrows = |e, out| { out.re(*e, 0); }, n = |_x| 1);
+case!(Tup3: (u64, u64, u64), make = |_s| any(), same = |a, b| a == b, eps = |x, e| x == *e, borrows = |e, out| { out.re(*e, 0); }, n = |_x| 1);
 type T12 = (u8, u8, u8, u8, u8, u8, u8, u8, u8, u8, u8, u8);
 fn t12() -> T12 { (any(), any(), any(), any(), any(), any(), any(), any(), any(), any(), any(), any()) }
-case!(Tup12: T12, make = t12(), same = |a, b| a == b, eps = |x, e| x == *e, borrows = |e, out| { out.re(*e, 0); }, n = |_x| 1);
+case!(Tup12: T12, make = |_s| t12(), same = |a, b| a == b, eps = |x, e| x == *e, borrows = |e, out| { out.re(*e, 0); }, n = |_x| 1);
 
 // ---- ranges, bounds, control flow ---------------------------------------------------
 
 plain!(RangeU32: Range<u32>, RangeFromU8: RangeFrom<u8>, RangeToU32: RangeTo<u32>, RangeToInclU8: RangeToInclusive<u8>,
        RangeFullC: RangeFull, BoundU32: Bound<u32>, CfU8U16: ControlFlow<u8, u16>);
 fn range_incl() -> RangeInclusive<u32> { any::<u32>()..=any::<u32>() }
-case!(RangeInclU32: RangeInclusive<u32>, make = range_incl(), same = |a, b| a == b, eps = |x, e| x == e);
-fn bound_string() -> Bound<String> {
+case!(RangeInclU32: RangeInclusive<u32>, make = |_s| range_incl(), same = |a, b| a == b, eps = |x, e| x == e);
+fn bound_string(s: usize) -> Bound<String> {
     let t: u8 = any();
     assume(t < 3);
-    match t { 0 => Bound::Unbounded, 1 => Bound::Included(string_upto::<1>()), _ => Bound::Excluded(string_upto::<1>()) }
+    match t { 0 => Bound::Unbounded, 1 => Bound::Included(str3(s)), _ => Bound::Excluded(str3(s)) }
 }
-case!(BoundString: Bound<String>, make = bound_string(), same = |a, b| a == b,
+fn eq_bound_string(a: &Bound<String>, b: &Bound<String>) -> bool {
+    match (a, b) { (Bound::Unbounded, Bound::Unbounded) => true, (Bound::Included(a), Bound::Included(b)) => eqstr(a, b),
+                   (Bound::Excluded(a), Bound::Excluded(b)) => eqstr(a, b), _ => false }
+}
+case!(BoundString: Bound<String>, shapes = 3, make = |s| bound_string(s), same = |a, b| eq_bound_string(a, b),
       eps = |x, e| match (x, e) { (Bound::Unbounded, Bound::Unbounded) => true,
-                                   (Bound::Included(a), Bound::Included(b)) => a.as_str() == *b,
-                                   (Bound::Excluded(a), Bound::Excluded(b)) => a.as_str() == *b, _ => false },
+                                   (Bound::Included(a), Bound::Included(b)) => eqstr(a, b),
+                                   (Bound::Excluded(a), Bound::Excluded(b)) => eqstr(a, b), _ => false },
       borrows = |e, out| { match e { Bound::Included(s) | Bound::Excluded(s) => out.str(*s, 0), _ => {} } },
       n = |x| if matches!(x, Bound::Unbounded) { 0 } else { 1 });
-fn cf_deep() -> ControlFlow<String, Vec<u8>> {
-    if any::<bool>() { ControlFlow::Break(string_upto::<1>()) } else { ControlFlow::Continue(vec_upto::<u8, 2>()) }
+fn cf_deep(s: usize) -> ControlFlow<String, Vec<u8>> {
+    if any::<bool>() { ControlFlow::Break(str3(s)) } else { ControlFlow::Continue(vec_upto::<u8, 2>()) }
 }
-case!(CfStringVec: ControlFlow<String, Vec<u8>>, make = cf_deep(), same = |a, b| a == b,
-      eps = |x, e| match (x, e) { (ControlFlow::Break(a), ControlFlow::Break(b)) => a.as_str() == *b,
-                                   (ControlFlow::Continue(a), ControlFlow::Continue(b)) => a.as_slice() == *b, _ => false },
+fn eq_cf_deep(a: &ControlFlow<String, Vec<u8>>, b: &ControlFlow<String, Vec<u8>>) -> bool {
+    match (a, b) { (ControlFlow::Break(a), ControlFlow::Break(b)) => eqstr(a, b),
+                   (ControlFlow::Continue(a), ControlFlow::Continue(b)) => eqs(a, b), _ => false }
+}
+case!(CfStringVec: ControlFlow<String, Vec<u8>>, shapes = 3, make = |s| cf_deep(s), same = |a, b| eq_cf_deep(a, b),
+      eps = |x, e| match (x, e) { (ControlFlow::Break(a), ControlFlow::Break(b)) => eqstr(a, b),
+                                   (ControlFlow::Continue(a), ControlFlow::Continue(b)) => eqs(a, b), _ => false },
       borrows = |e, out| { match e { ControlFlow::Break(s) => out.str(*s, 0), ControlFlow::Continue(v) => out.slice(*v, 0) } },
       n = |_x| 1);
 
 // ---- derived types ---------------------------------------------------------------------
 
 fn deep_s() -> DeepS<Vec<u16>> { DeepS { id: any(), data: vec_upto::<u16, 2>(), tail: any() } }
-case!(DeepSVec: DeepS<Vec<u16>>, make = deep_s(), same = |a, b| a == b,
-      eps = |x, e| { let e: &DeepS<&[u16]> = e; x.id == e.id && x.data.as_slice() == e.data && x.tail == e.tail },
+case!(DeepSVec: DeepS<Vec<u16>>, make = |_s| deep_s(), same = |a, b| a.id == b.id && eqs(&a.data, &b.data) && a.tail == b.tail,
+      eps = |x, e| { let e: &DeepS<&[u16]> = e; x.id == e.id && eqs(&x.data, e.data) && x.tail == e.tail },
       borrows = |e, out| { out.slice(e.data, 0); }, n = |_x| 1);
-fn deep_str() -> DeepS<String> { DeepS { id: any(), data: string_upto::<1>(), tail: any() } }
-case!(DeepSStr: DeepS<String>, make = deep_str(), same = |a, b| a == b,
-      eps = |x, e| { let e: &DeepS<&str> = e; x.id == e.id && x.data.as_str() == e.data && x.tail == e.tail },
+fn deep_str(s: usize) -> DeepS<String> { DeepS { id: any(), data: str3(s), tail: any() } }
+case!(DeepSStr: DeepS<String>, shapes = 3, make = |s| deep_str(s), same = |a, b| a.id == b.id && eqstr(&a.data, &b.data) && a.tail == b.tail,
+      eps = |x, e| { let e: &DeepS<&str> = e; x.id == e.id && eqstr(&x.data, e.data) && x.tail == e.tail },
       borrows = |e, out| { out.str(e.data, 0); }, n = |_x| 1);
 fn deep_u32() -> DeepS<u32> { DeepS { id: any(), data: any(), tail: any() } }
-case!(DeepSU32: DeepS<u32>, make = deep_u32(), same = |a, b| a == b,
+case!(DeepSU32: DeepS<u32>, make = |_s| deep_u32(), same = |a, b| a == b,
       eps = |x, e| { let e: &DeepS<u32> = e; x == e });
 fn mention() -> Mention<u16> { Mention { v: vec_upto::<u16, 2>(), k: any() } }
-case!(MentionU16: Mention<u16>, make = mention(), same = |a, b| a == b,
-      eps = |x, e| { let e: &Mention<u16> = e; x == e });
+case!(MentionU16: Mention<u16>, make = |_s| mention(), same = |a, b| eqs(&a.v, &b.v) && a.k == b.k,
+      eps = |x, e| { let e: &Mention<u16> = e; eqs(&x.v, &e.v) && x.k == e.k });
 fn both() -> Both<Vec<u8>, u16, String> { Both { a: vec_upto::<u8, 2>(), vb: vec_upto::<u16, 1>(), _p: PhantomData } }
-case!(BothC: Both<Vec<u8>, u16, String>, make = both(), same = |a, b| a == b,
-      eps = |x, e| { let e: &Both<&[u8], u16, String> = e; x.a.as_slice() == e.a && x.vb == e.vb },
+case!(BothC: Both<Vec<u8>, u16, String>, make = |_s| both(), same = |a, b| eqs(&a.a, &b.a) && eqs(&a.vb, &b.vb),
+      eps = |x, e| { let e: &Both<&[u8], u16, String> = e; eqs(&x.a, e.a) && eqs(&x.vb, &e.vb) },
       borrows = |e, out| { out.slice(e.a, 0); }, n = |_x| 1);
 fn gen() -> Gen<Vec<u16>, 2> { Gen { a: vec_upto::<u16, 2>(), b: any() } }
-case!(GenC: Gen<Vec<u16>, 2>, make = gen(), same = |a, b| a == b,
-      eps = |x, e| { let e: &Gen<&[u16], 2> = e; x.a.as_slice() == e.a && x.b == e.b },
+case!(GenC: Gen<Vec<u16>, 2>, make = |_s| gen(), same = |a, b| eqs(&a.a, &b.a) && a.b[0] == b.b[0] && a.b[1] == b.b[1],
+      eps = |x, e| { let e: &Gen<&[u16], 2> = e; eqs(&x.a, e.a) && x.b[0] == e.b[0] && x.b[1] == e.b[1] },
       borrows = |e, out| { out.slice(e.a, 0); }, n = |_x| 1);
 fn tups() -> TupS { TupS(any(), vec_upto::<u16, 2>(), any()) }
-case!(TupSC: TupS, make = tups(), same = |a, b| a == b, eps = |x, e| { let e: &TupS = e; x == e });
-case!(UnitSC: UnitS, make = UnitS, same = |a, b| a == b, eps = |x, e| { let e: &UnitS = e; x == e });
+case!(TupSC: TupS, make = |_s| tups(), same = |a, b| a.0 == b.0 && eqs(&a.1, &b.1) && a.2 == b.2, eps = |x, e| { let e: &TupS = e; x.0 == e.0 && eqs(&x.1, &e.1) && x.2 == e.2 });
+case!(UnitSC: UnitS, make = |_s| UnitS, same = |a, b| a == b, eps = |x, e| { let e: &UnitS = e; x == e });
 fn deep_prims() -> DeepPrims { DeepPrims { a: any(), b: any(), c: any() } }
-case!(DeepPrimsC: DeepPrims, make = deep_prims(), same = |a, b| a == b, eps = |x, e| { let e: &DeepPrims = e; x == e });
+case!(DeepPrimsC: DeepPrims, make = |_s| deep_prims(), same = |a, b| a == b, eps = |x, e| { let e: &DeepPrims = e; x == e });
 fn hold_zunit() -> Hold<ZUnit> { Hold { a: any(), z: ZUnit, b: any() } }
-case!(HoldZUnit: Hold<ZUnit>, make = hold_zunit(), same = |a, b| a == b,
+case!(HoldZUnit: Hold<ZUnit>, make = |_s| hold_zunit(), same = |a, b| a == b,
       eps = |x, e| { let e: &Hold<&ZUnit> = e; x.a == e.a && x.b == e.b });
 fn hold_zal4() -> Hold<ZAl4> { Hold { a: any(), z: ZAl4, b: any() } }
-case!(HoldZAl4: Hold<ZAl4>, make = hold_zal4(), same = |a, b| a == b,
+case!(HoldZAl4: Hold<ZAl4>, make = |_s| hold_zal4(), same = |a, b| a == b,
       eps = |x, e| { let e: &Hold<&ZAl4> = e; x.a == e.a && x.b == e.b });
 fn hold_zeros() -> Hold<ZeroS> { Hold { a: any(), z: any(), b: any() } }
-case!(HoldZeroS: Hold<ZeroS>, make = hold_zeros(), same = |a, b| a == b,
+case!(HoldZeroS: Hold<ZeroS>, make = |_s| hold_zeros(), same = |a, b| a == b,
       eps = |x, e| { let e: &Hold<&ZeroS> = e; x.a == e.a && x.z == *e.z && x.b == e.b },
       borrows = |e, out| { out.re(e.z, 0); }, n = |_x| 1);
 
 macro_rules! zstruct {
     ($($name:ident : $t:ty),* $(,)?) => {$(
-        case!($name: $t, make = any(), same = |a, b| a == b, eps = |x, e| { let e: &&$t = e; x == *e },
+        case!($name: $t, make = |_s| any(), same = |a, b| a == b, eps = |x, e| { let e: &&$t = e; x == *e },
               borrows = |e, out| { out.re(*e, 0); }, n = |_x| 1);
     )*};
 }
 zstruct!(ZeroSC: ZeroS, ZTailC: ZTail, ZAl32C: ZAl32, ZGenU32: ZGen<u32>, ZNestC: ZNest, ZConst3: ZConst<3>, ZEC: ZE);
 // zero-sized zero-copy: the reference carries no bytes; no borrow obligations
-case!(ZUnitC: ZUnit, make = ZUnit, same = |a, b| a == b, eps = |x, e| { let e: &&ZUnit = e; true });
-case!(ZAl4C: ZAl4, make = ZAl4, same = |a, b| a == b, eps = |x, e| { let e: &&ZAl4 = e; true });
+case!(ZUnitC: ZUnit, make = |_s| ZUnit, same = |a, b| a == b, eps = |x, e| { let e: &&ZUnit = e; true });
+case!(ZAl4C: ZAl4, make = |_s| ZAl4, same = |a, b| a == b, eps = |x, e| { let e: &&ZAl4 = e; true });
 
 fn en_u8() -> En<u8> {
     let t: u8 = any();
     assume(t < 3);
     match t { 0 => En::A, 1 => En::B(any()), _ => En::C { x: any(), y: any() } }
 }
-case!(EnU8: En<u8>, make = en_u8(), same = |a, b| a == b, eps = |x, e| { let e: &En<u8> = e; x == e });
+case!(EnU8: En<u8>, make = |_s| en_u8(), same = |a, b| a == b, eps = |x, e| { let e: &En<u8> = e; x == e });
 fn en_vec() -> En<Vec<u16>> {
     let t: u8 = any();
     assume(t < 3);
     match t { 0 => En::A, 1 => En::B(vec_upto::<u16, 2>()), _ => En::C { x: any(), y: vec_upto::<u16, 1>() } }
 }
-case!(EnVec: En<Vec<u16>>, make = en_vec(), same = |a, b| a == b,
-      eps = |x, e| { let e: &En<&[u16]> = e; match (x, e) { (En::A, En::A) => true, (En::B(a), En::B(b)) => a.as_slice() == *b,
-                      (En::C { x: x1, y: y1 }, En::C { x: x2, y: y2 }) => x1 == x2 && y1.as_slice() == *y2, _ => false } },
+case!(EnVec: En<Vec<u16>>, make = |_s| en_vec(), same = |a, b| match (a, b) { (En::A, En::A) => true, (En::B(a), En::B(b)) => eqs(a, b), (En::C { x: x1, y: y1 }, En::C { x: x2, y: y2 }) => x1 == x2 && eqs(y1, y2), _ => false },
+      eps = |x, e| { let e: &En<&[u16]> = e; match (x, e) { (En::A, En::A) => true, (En::B(a), En::B(b)) => eqs(a, b),
+                      (En::C { x: x1, y: y1 }, En::C { x: x2, y: y2 }) => x1 == x2 && eqs(y1, y2), _ => false } },
       borrows = |e, out| { match e { En::A => {}, En::B(b) => out.slice(*b, 0), En::C { y, .. } => out.slice(*y, 0) } },
       n = |x| if matches!(x, En::A) { 0 } else { 1 });
 fn e1() -> E1 { E1::Only(any()) }
-case!(E1C: E1, make = e1(), same = |a, b| a == b, eps = |x, e| { let e: &E1 = e; x == e });
+case!(E1C: E1, make = |_s| e1(), same = |a, b| a == b, eps = |x, e| { let e: &E1 = e; x == e });
 fn e2() -> E2 { if any::<bool>() { E2::Yes } else { E2::No } }
-case!(E2C: E2, make = e2(), same = |a, b| a == b, eps = |x, e| { let e: &E2 = e; x == e });
+case!(E2C: E2, make = |_s| e2(), same = |a, b| a == b, eps = |x, e| { let e: &E2 = e; x == e });
 fn e5() -> E5<Vec<u8>> {
     let t: u8 = any();
     assume(t < 5);
     match t { 0 => E5::A, 1 => E5::B(any()), 2 => E5::C(any(), vec_upto::<u16, 1>()),
               3 => E5::D { a: any(), b: vec_upto::<u8, 2>() }, _ => E5::E }
 }
-case!(E5C: E5<Vec<u8>>, make = e5(), same = |a, b| a == b,
+case!(E5C: E5<Vec<u8>>, make = |_s| e5(), same = |a, b| match (a, b) { (E5::A, E5::A) | (E5::E, E5::E) => true, (E5::B(a), E5::B(b)) => a == b, (E5::C(a, v), E5::C(b, w)) => a == b && eqs(v, w), (E5::D { a: a1, b: b1 }, E5::D { a: a2, b: b2 }) => a1 == a2 && eqs(b1, b2), _ => false },
       eps = |x, e| { let e: &E5<&[u8]> = e; match (x, e) { (E5::A, E5::A) | (E5::E, E5::E) => true, (E5::B(a), E5::B(b)) => a == b,
-                      (E5::C(a, v), E5::C(b, w)) => a == b && v == w,
-                      (E5::D { a: a1, b: b1 }, E5::D { a: a2, b: b2 }) => a1 == a2 && b1.as_slice() == *b2, _ => false } },
+                      (E5::C(a, v), E5::C(b, w)) => a == b && eqs(v, w),
+                      (E5::D { a: a1, b: b1 }, E5::D { a: a2, b: b2 }) => a1 == a2 && eqs(b1, b2), _ => false } },
       borrows = |e, out| { if let E5::D { b, .. } = e { out.slice(*b, 0); } }, n = |x| if matches!(x, E5::D { .. }) { 1 } else { 0 });
 
 // ---- nesting of derived types in containers ------------------------------------------------
 
 fn opt_zeros() -> Option<ZeroS> { any() }
-case!(OptZeroS: Option<ZeroS>, make = opt_zeros(), same = |a, b| a == b,
+case!(OptZeroS: Option<ZeroS>, make = |_s| opt_zeros(), same = |a, b| a == b,
       eps = |x, e| match (x, e) { (None, None) => true, (Some(a), Some(b)) => a == *b, _ => false },
       borrows = |e, out| { if let Some(r) = e { out.re(*r, 0); } }, n = |x| if x.is_some() { 1 } else { 0 });
-fn vec_deeps() -> Vec<DeepS<Vec<u8>>> {
-    let n = len_upto(1);
+fn vec_deeps(s: usize) -> Vec<DeepS<Vec<u8>>> {
     let mut v = Vec::with_capacity(1);
-    if n == 1 { v.push(DeepS { id: any(), data: vec_upto::<u8, 2>(), tail: any() }); }
+    if s == 1 { v.push(DeepS { id: any(), data: vec_upto::<u8, 2>(), tail: any() }); }
     v
 }
-case!(VecDeepS: Vec<DeepS<Vec<u8>>>, make = vec_deeps(), same = |a, b| a == b,
+case!(VecDeepS: Vec<DeepS<Vec<u8>>>, shapes = 2, make = |s| vec_deeps(s), same = |a, b| a.len() == b.len() && (a.len() == 0 || (a[0].id == b[0].id && eqs(&a[0].data, &b[0].data) && a[0].tail == b[0].tail)),
       eps = |x, e| { let e: &Vec<DeepS<&[u8]>> = e; x.len() == e.len() && (x.len() == 0 ||
-                      (x[0].id == e[0].id && x[0].data.as_slice() == e[0].data && x[0].tail == e[0].tail)) },
+                      (x[0].id == e[0].id && eqs(&x[0].data, e[0].data) && x[0].tail == e[0].tail)) },
       borrows = |e, out| { if e.len() == 1 { out.slice(e[0].data, 0); } }, n = |x| x.len());
